@@ -1064,9 +1064,12 @@ def _sign_zone_nsec(
         )
         node = txn.get_node(name)
         if node and next_secure:
-            types = (
-                set([rdataset.rdtype for rdataset in node.rdatasets]) | mandatory_types
-            )
+            types = set([rdataset.rdtype for rdataset in node.rdatasets])
+            if dns.rdatatype.NS in types and name not in (zone.origin, dns.name.empty):
+                # RFC 4035 2.3: at a delegation point only NS and the RRsets the
+                # parent is authoritative for (DS) may be set; glue must be clear.
+                types &= set([dns.rdatatype.RdataType.NS, dns.rdatatype.RdataType.DS])
+            types |= mandatory_types
             windows = Bitmap.from_rdtypes(list(types))
             rrset = dns.rrset.from_rdata(
                 name,
